@@ -139,11 +139,13 @@ def gen(rng, tier):
         if u < 0.25 or len(kinds) < 3:
             if not non_sinks:
                 continue
-            kind = rng.choice(["pipe", "pipe", "sink", "sink", "zip", "combine"])
+            kind = rng.choice(["pipe", "pipe", "sink", "sink", "zip", "combine", "combine_on"])
             if kind == "sink":
                 new(kind, [rng.choice(non_sinks)])
             else:
                 k = rng.choice([0, 1, 1, 2]) if kind == "pipe" else rng.choice([1, 2, 2, 3])
+                if kind == "combine_on" and len(non_sinks) < 1:
+                    continue
                 u_new = rng.sample(non_sinks, min(k, len(non_sinks)))
                 if max_paths(("new", u_new)) <= 32:
                     new(kind, u_new)
@@ -297,6 +299,9 @@ def run(prop, tier, seed, replay=None):
                 out.violation(sig, msg, {"case": c})
                 nfind += 1
             break
+    # (combine_latest with an explicit emit_on is not in the Coq topology model: oracle only)
+    cos_all = cos
+    cos = [(c, o) for (c, o) in cos_all if not any(op[0] == "new" and op[1] == "combine_on" for op in c["ops"])]
     mism, errors = correspondence("C15", cos)
     for p, o in errors:
         out.violation("C15/correspondence-error", "coqc failed: %s" % o[-300:], {"file": p}, no_input=True)
@@ -306,7 +311,7 @@ def run(prop, tier, seed, replay=None):
     if not proof["ok"]:
         out.violation("C15/proof/%s" % proof["failing"], "proof obligation no longer checks: %s" % proof["failing"],
                       {"theorem_or_file": proof["failing"], "log": proof["log"][-2000:]}, no_input=True)
-    cov = {"evaluations": len(cos), "distinct_nontrivial": len(nontriv),
+    cov = {"evaluations": len(cos_all), "distinct_nontrivial": len(nontriv), "cases_with_emit_on_combine": len(cos_all) - len(cos),
            "rule": "random histories of node creation, emit, connect, disconnect (incl. non-edges), destroy and drop-reference (+ forced gc) over pipe/sink/zip/combine_latest nodes, no parallel edges, edits before and after data; non-trivial = at least one edit and one delivery",
            "op_histogram": hist, "traces_validated_against_impl": len(cos) - len(mism), "disagreements_checked": len(mism),
            "samples": [cos[0][0]] if cos else []}
